@@ -1,12 +1,80 @@
 #!/venv/bin/python
-"""setup_cmd: offline sanity of the framework (no build step is needed: pure Python)."""
-import json, os, sys
+"""setup_cmd: offline sanity of the framework (pure Python, nothing to build) + engine self-tests:
+the scheduler explorer is run on toy harnesses whose schedule counts, lost update and deadlock are known."""
+import json, math, os, sys
+
 V = os.path.dirname(os.path.dirname(os.path.abspath(__file__)))
 sys.path.insert(0, V)
-from mc import core
+from mc import core, sched
+
 core.bind_repo()
 import mako
+
 json.load(open(os.path.join(V, "MANIFEST.json")))
 json.load(open(os.path.join(V, "known_findings.json")))
 os.makedirs(os.path.join(V, "evidence"), exist_ok=True)
-print("selftest ok: mako from", os.path.dirname(mako.__file__))
+
+
+def toy(n_yields, prefix, shared):
+    s = sched.Scheduler(prefix)
+
+    def body():
+        for _ in range(n_yields):
+            v = shared["x"]
+            s.yield_point("between read and write")
+            shared["x"] = v + 1
+        return shared["x"]
+
+    s.spawn(body)
+    s.spawn(body)
+    return s.run()
+
+
+# 1. schedule counts: two threads with k yield points each -> every thread is k+1 segments; all interleavings
+#    of the 2(k+1) segments minus the forced first... compare with an independent enumeration of choice trees
+for k in (1, 2, 3):
+    finals = set()
+
+    def run_one(pre):
+        sh = {"x": 0}
+        ex = toy(k, pre, sh)
+        finals.add(sh["x"])
+        return ex
+
+    n, capped = sched.explore(run_one, lambda x: None, None)
+    expect = math.comb(2 * (k + 1), k + 1)
+    assert not capped and n == expect, ("schedule count", k, n, expect)
+    # 2. the lost update (final value below 2k) is found, and so is the sequential result
+    assert min(finals) < 2 * k and max(finals) == 2 * k, finals
+    n0, _ = sched.explore(run_one, lambda x: None, 0)
+    assert n0 == 2, ("bound 0 explores exactly the two sequential orders", n0)
+
+# 3. deadlock: opposite lock order
+found = []
+
+
+def run_dl(pre):
+    s = sched.Scheduler(pre)
+    a, b = s.lock(), s.lock()
+
+    def t1():
+        a.acquire(); b.acquire(); b.release(); a.release()
+
+    def t2():
+        b.acquire(); a.acquire(); a.release(); b.release()
+
+    s.spawn(t1)
+    s.spawn(t2)
+    ex = s.run()
+    if ex.deadlock:
+        found.append(list(ex.choices))
+    return ex
+
+
+sched.explore(run_dl, lambda x: None, 2)
+assert found, "the explorer must find the lock-order deadlock"
+# 4. deterministic replay of a recorded schedule
+ex1 = run_dl(found[0])
+ex2 = run_dl(found[0])
+assert ex1.deadlock and ex2.deadlock and ex1.choices == ex2.choices
+print("selftest ok: mako from %s; explorer: counts, lost update, deadlock, replay verified" % os.path.dirname(mako.__file__))
